@@ -192,7 +192,7 @@ impl KeyboardLayout for Colemak {
                 }
             }
             KeyCode::P => {
-                if modifiers.is_caps() {
+                if modifiers.is_shifted() {
                     DecodedKey::Unicode(':')
                 } else {
                     DecodedKey::Unicode(';')
@@ -303,7 +303,7 @@ impl KeyboardLayout for Colemak {
             KeyCode::Oem1 => {
                 if map_to_unicode && modifiers.is_ctrl() {
                     DecodedKey::Unicode('\u{000F}')
-                } else if modifiers.is_shifted() {
+                } else if modifiers.is_caps() {
                     DecodedKey::Unicode('O')
                 } else {
                     DecodedKey::Unicode('o')
